@@ -105,4 +105,9 @@ def check(ctx: Ctx) -> str:
         w = writers.get(entry)
         ctx.check(w is None, f"module-context:{entry}", f"compiler:CodeGenerator.{entry}", "stores into the context of a memoised template module",
                   f"{entry} emits `{w}`; inside a macro of an imported template `context` is the memoised module's Context (Template._module), shared by every render that imports the template: a render suspended between the store and its revert changes the eval context that concurrent renders of the same macros see", "src/jinja2/compiler.py", detail={"emitted": w})
+    # values shared between renders (exports of a memoised module, environment globals) stay
+    # private to a render only if "copying" filters really copy in async mode
+    from .c22 import fresh_list_rule
+
+    fresh_list_rule(ctx, "R5")
     return __doc__ or ""
